@@ -58,6 +58,7 @@ func iTemplateNew(in *Interp, fn *ssa.Function, a []Value) Value {
 }
 
 func iTemplateFuncs(in *Interp, fn *ssa.Function, a []Value) Value {
+	in.yield() // the library synchronises internally here: a scheduling point
 	st := in.tmplOf(a[0])
 	m := a[1].(*MapV)
 	if m != nil {
@@ -179,6 +180,7 @@ type tmplVar struct {
 type tmplWriteErr struct{ err IfaceV }
 
 func iTemplateExecute(in *Interp, fn *ssa.Function, a []Value) (res Value) {
+	in.yield()
 	st := in.tmplOf(a[0])
 	in.logAccess("rd", a[0].(PtrV))
 	data := a[2].(IfaceV)
